@@ -443,6 +443,9 @@ def run(ck):
                     fn_.id, sorted({s_.caller.id for s_ in mk})), fn_.where(t_),
                 ok_detail="no directory creation in the same region")
 
+    # ---- R14 what a worker did stays in its file map until it is saved (the single-threaded driver never drops an entry): C05-R6b ------
+    from . import c05 as _c05
+    _c05.r6b_no_entry_leaves_the_file_map(ck, rule="C06-R14")
     # ---- R13 every file patch is scheduled and queued --------------------------------------------------------------------------------
     r13_every_file_patch_is_queued(ck, par)
 
